@@ -390,6 +390,39 @@ impl AlternateTime {
         self.dst_end_time
     }
 
+    /// Compare the DST start and end Unix times of the provided year.
+    ///
+    /// DST start and end can coincide in some years only (for example `J60` and `59` on non-leap years).
+    /// Since consistent rules keep the same order every year, the order of the nearest year where they differ is returned in this case.
+    ///
+    pub(crate) const fn cmp_dst_start_end(&self, year: i32, dst_start_time_in_utc: i64, dst_end_time_in_utc: i64) -> Ordering {
+        let mut delta = 0;
+
+        // Rule days repeat with the 400-year Gregorian cycle
+        while delta < 400 {
+            let mut side = 0;
+            while side < 2 {
+                let other_year = if side == 0 { year as i64 - delta } else { year as i64 + delta };
+
+                if i32::MIN as i64 <= other_year && other_year <= i32::MAX as i64 {
+                    let dst_start_unix_time = self.dst_start.unix_time(other_year as i32, dst_start_time_in_utc);
+                    let dst_end_unix_time = self.dst_end.unix_time(other_year as i32, dst_end_time_in_utc);
+
+                    match cmp(dst_start_unix_time, dst_end_unix_time) {
+                        Ordering::Equal => {}
+                        ordering => return ordering,
+                    }
+                }
+
+                side += 1;
+            }
+
+            delta += 1;
+        }
+
+        Ordering::Equal
+    }
+
     /// Find the local time type associated to the alternate transition rule at the specified Unix time in seconds
     const fn find_local_time_type(&self, unix_time: i64) -> Result<&LocalTimeType, TzError> {
         // Overflow is not possible
@@ -412,7 +445,7 @@ impl AlternateTime {
         // Check DST start/end Unix times for previous/current/next years to support for transition day times outside of [0h, 24h] range.
         // This is sufficient since the absolute value of DST start/end time in UTC is less than 2 weeks.
         // Moreover, inconsistent DST transition rules are not allowed, so there won't be additional transitions at the year boundary.
-        let is_dst = match cmp(current_year_dst_start_unix_time, current_year_dst_end_unix_time) {
+        let is_dst = match self.cmp_dst_start_end(current_year, dst_start_time_in_utc, dst_end_time_in_utc) {
             Ordering::Less | Ordering::Equal => {
                 if unix_time < current_year_dst_start_unix_time {
                     let previous_year_dst_end_unix_time = self.dst_end.unix_time(current_year - 1, dst_end_time_in_utc);
